@@ -88,6 +88,7 @@ type CheckResult struct {
 	Obligations int
 	Discharged  int
 	Covers      int
+	CoversUndecided int
 	Trusted     map[string]bool
 	Abstracted  map[string]int
 	Functions   []string
@@ -164,6 +165,11 @@ func RunProperty(repo string, cfg *PropertyConfig, kf *KnownFindingsFile, timeou
 			cr.Records = append(cr.Records, rec)
 			if o.Vacuity {
 				cr.Covers++
+				if o.Status == "unknown" {
+					// neither a witness nor a contradiction found: not evidence of vacuity
+					cr.CoversUndecided++
+					continue
+				}
 				if o.Status != "sat" {
 					cr.Obligations++
 					cr.Violations = append(cr.Violations, &Violation{Property: cfg.ID, Unit: u.Unit, Obligation: o.Name, Kind: "vacuity", Pos: o.Pos,
@@ -257,6 +263,7 @@ func (cr *CheckResult) WriteEvidence(dir string, cfg *PropertyConfig, tier strin
 		"functions_under_contract": cr.Functions,
 		"units":                    len(cr.Units),
 		"vacuity_covers_checked":   cr.Covers,
+		"vacuity_covers_undecided": cr.CoversUndecided,
 		"discharged_by_solver":     bySolver,
 		"obligations_by_kind":      byKind,
 		"abstracted_instructions":  abstracted,
